@@ -22,3 +22,4 @@ def rules(ctx):
     S.loop_completeness_rules(ctx)
     S.savepoint_counter_rules(ctx)
     S.state_writer_rules(ctx)
+    S.key_compare_rules(ctx)
